@@ -141,6 +141,8 @@ class Builder:
         if kind == K_EXPRS:
             return tuple(None if c is None else self(c) for c in v)
         if kind == K_STR:
+            if v is None:
+                return None   # deprecated spelling: CommonSubexpression(scope=None)
             if not isinstance(v, str):
                 raise HarnessError(f"str field got {v!r}")
             return v
